@@ -25,3 +25,16 @@ def zero(z):
 
 def sinx(x):
     return torch.sin(x)
+
+
+def ode_ens(w, t):
+    return [diff(w[:, :1], t) - w[:, 1:2], diff(w[:, 1:2], t) + w[:, :1]]
+
+
+class ClipSGD(torch.optim.SGD):
+    """a user's subclass of a stock optimiser (gradient clipping before the step)"""
+
+    def step(self, closure=None):
+        for g in self.param_groups:
+            torch.nn.utils.clip_grad_norm_(g['params'], 0.5)
+        return super().step(closure)
